@@ -57,6 +57,7 @@ inductive WStmt where
   | ret                     -- `return`
   | sendDone                -- `a.done <- true`
   | aggFlush                -- `a.flush(w)`
+  | rethrow                 -- `a.rethrow()`: re-raise on this goroutine a panic a flush raised on the ticker goroutine
 deriving DecidableEq, Repr
 
 def WCond.eval (closed ctxDone : Bool) : WCond → Bool
@@ -160,6 +161,6 @@ def canonClose : List WStmt := [.lock, .deferUnlock, .setClosed, .flush]
 def canonKeepAlive : List (Chan × List WStmt) := [(.ctxDone, [.stopTicker, .ret]), (.tick, [.pingViaWrite])]
 def canonComplete : List WStmt := [.writeComplete, .setClosed]
 def canonTicker : List (Chan × List WStmt) := [(.done, [.ret]), (.tick, [.aggFlush])]
-def canonDone : List WStmt := [.sendDone, .aggFlush]
+def canonDone : List WStmt := [.sendDone, .rethrow, .aggFlush]
 
 end GqlgenVerif.StreamGuard
